@@ -472,6 +472,9 @@ func init() {
 		r := c.R
 		rounds := c.N(8, 80)
 
+		// 00. boundary and history audit: a fixed corpus that runs first (c04_audit.go)
+		c04Audit(c)
+
 		// 0. the witnesses pinned by the Lean counterexample theorems, replayed on the implementation
 		c04CheckMeaning(c, "bet Aft. 1850 and 1900", c04Meaning{0, 0, 1850, gedcom.DateConstraintAfter},
 			c04Meaning{0, 0, 1900, gedcom.DateConstraintExact}, true, "witness/canonical_old_rule_witness")
